@@ -216,12 +216,22 @@ def replay_scaling(name, seed=1):
                 if p_.limits[0] <= v <= p_.limits[1]:
                     sets.append(dict(sets[0], **{n: v}))
                     break
+    # the replay runs only after the grading has failed, i.e. when a failing input is wanted: every length-like
+    # parameter is also taken at a tenth and at ten times its default (thresholds that compare a length with a pure
+    # number switch branches there), and two extreme scalings are added below
+    for n in names:
+        p_ = plist[n]
+        if UNIT_DEG.get(p_.units, (0, 0))[0] != 0 and not p_.is_control and not p_.choices and p_.default:
+            for f in (0.1, 10.0):
+                v = p_.default * f
+                if p_.limits[0] <= v <= p_.limits[1]:
+                    sets.append(dict(sets[0], **{n: v}))
     ctl = [p.name for p in info.parameters.kernel_parameters if p.is_control]
     dev = {"intensity": 0.0, "volume": 0.0, "radius": 0.0}
     worst_case = {}
     nmodes = len(info.radius_effective_modes or [])
     for pars in sets:
-        for lam, mu in ((1.7, 1.0), (0.45, 1.0), (1.0, 2.3)):
+        for lam, mu in ((1.7, 1.0), (0.45, 1.0), (1.0, 2.3), (0.02, 1.0), (40.0, 1.0)):
             q = np.array([0.004, 0.02, 0.07, 0.15])
             p2 = {}
             for n in names:
